@@ -119,6 +119,16 @@ def rule_copy_carries(ctx: Ctx) -> None:
             "defaults and bound are re-applied on the copy (they are not constructor arguments)", "NestedPipeFunc.copy does not re-apply defaults / bound, which its constructor does not take: the copy loses them", key="Nested.reapply")
 
 
+    # ... and they REPLACE what the constructor derived from the inner functions: a merge (overwrite not True) keeps the inner
+    # functions' entries the source had removed - the copy then has a default the original does not have (or default and bound clash)
+    reapplied = [c for c in ast.walk(ncp.node) if isinstance(c, ast.Call) and isinstance(c.func, ast.Attribute) and c.func.attr in ("update_defaults", "update_bound") and not (isinstance(c.func.value, ast.Name) and c.func.value.id == "self")]
+    merges = [c for c in reapplied if not any(k.arg == "overwrite" and isinstance(k.value, ast.Constant) and k.value.value is True for k in c.keywords)]
+    if reapplied:
+        ctx.add("1-copy-carries", ncp, merges[0] if merges else reapplied[0], not merges, "the copy's defaults / bound are replaced by the source's (overwrite=True)" if not merges else
+                f"`{norm(merges[0])[:60]}` merges the source's entries into what the constructor derived from the inner functions instead of replacing them: an entry the source had removed comes back in every copy "
+                "(pipeline.copy(), `|`, join, pickling copies) - values change or the copy fails with 'both defaults and bound'", key="Nested.reapply-replaces")
+
+
 def rule_no_inplace(ctx: Ctx) -> None:  # noqa: C901
     P, cg = ctx.prog, ctx.cg
     pf = P.cls(f"{PFM}.PipeFunc")
